@@ -305,7 +305,26 @@ func cycle(run *ev.Run, unit int64, r *rand.Rand, ws, ds []string) {
 	derr := d.DistributeOnce(context.Background())
 	// the same distributor is polled again and again in production: state kept between rounds must not change the verdicts
 	rounds := 1 + int(unit%3)
+	// what the distributor service has acknowledged (a PUT answered 200 directly) in earlier rounds of this
+	// instance: not sending those very bytes again is no failure - the service already holds them
+	acked := map[string][]byte{}
+	noteAcks := func() {
+		sd.mu.Lock()
+		defer sd.mu.Unlock()
+		for i := range logs {
+			if ds[i] != "200" {
+				continue
+			}
+			id := clogs[i].ID
+			for _, q := range sd.seen {
+				if q.Method == http.MethodPut && strings.Contains(q.Path, "/logs/"+id+"/") {
+					acked[id] = q.Body
+				}
+			}
+		}
+	}
 	for k := 1; k < rounds; k++ {
+		noteAcks()
 		sd.mu.Lock()
 		sd.seen = nil
 		sd.mu.Unlock()
@@ -364,7 +383,11 @@ func cycle(run *ev.Run, unit int64, r *rand.Rand, ws, ds []string) {
 			continue
 		}
 		if len(mine) == 0 {
-			run.Violate("valid_not_pushed", "a valid witnessed checkpoint produced no request", unit, detail)
+			if a, ok := acked[id]; ok && bytes.Equal(a, sw.answers[id]) {
+				run.Count("unchanged_acknowledged_bytes_not_resent")
+				continue
+			}
+			run.Violate("valid_not_pushed", "a valid witnessed checkpoint produced no request (and the service had not acknowledged these bytes in an earlier round)", unit, detail)
 			expectFail++
 			continue
 		}
